@@ -74,6 +74,16 @@ fn test(c: &Case, st: &mut Stats) -> TestResult {
     supported.extend_from_slice(&c.extra_sup);
     let mut required: Vec<u16> = all_types.iter().enumerate().filter(|(i, _)| c.req_sel >> (i % 64) & 1 == 1).map(|(_, t)| *t).collect();
     required.extend_from_slice(&c.extra_req);
+    // alias siblings (same low bits, other comprehension bit, ...) of types that are present: a
+    // sibling in `supported` does not make the type supported, a required sibling is not present
+    for (i, t) in all_types.iter().enumerate() {
+        if c.sup_sel >> ((i + 17) % 64) & 1 == 1 && c.sup_sel >> 63 == 1 {
+            supported.push(gen::alias_of(*t, 1 + ((c.sup_sel >> 40) % 11) as u8));
+        }
+        if c.req_sel >> ((i + 23) % 64) & 1 == 1 && c.req_sel >> 63 == 1 {
+            required.push(gen::alias_of(*t, 1 + ((c.req_sel >> 40) % 11) as u8));
+        }
+    }
     // ---- reference verdict (RFC 8489 s6.3.1) -------------------------------------------------------
     let unknown = dedup_keep_order(&exposed.iter().copied().filter(|t| *t < 0x8000 && !supported.contains(t)).collect::<Vec<_>>());
     let missing: Vec<u16> = required.iter().copied().filter(|t| !exposed.contains(t)).collect();
@@ -221,6 +231,7 @@ fn extra_types() -> BoxedStrategy<Vec<u16>> {
     vec(
         prop_oneof![
             3 => (0usize..19).prop_map(|i| refattrs::ALL_KINDS[i].code()),
+            2 => gen::alias_type(),
             1 => any::<u16>(),
             1 => Just(0x7fffu16),
             1 => Just(0x8000u16),
